@@ -242,6 +242,12 @@ def run_shard(ctx):
         if i % 40 == 11:
             phi = np.tile(np.linspace(0.05, 6.2, int(rng.integers(6, 30))), int(rng.integers(3, 200)))    # exactly periodic
         st = float(gens.pick(rng, list(RSTEPS)))
+        if i % 40 in (3, 23):
+            # a phase stored in half precision (values rounded to float16; 6.28125 is the largest half below 2pi and a legal phase)
+            phi = gens.synthetic_phase(rng, ncycles=int(rng.integers(3, 40))).astype(np.float16)
+            phi[rng.integers(0, len(phi), 2)] = np.float16(6.28125)
+            st = float(gens.pick(rng, [np.pi, 1.5 * np.pi]))
+            ctx.count('half_precision_phases')
         if rng.random() < .25:
             phi, _ = gens.relayout(rng, phi, 'strided')     # same values in a strided view
             ctx.count('strided_inputs')
